@@ -4,6 +4,7 @@ package fp
 
 // Contracts for rjv (see /verif/DESIGN.md). Comment-only file, compiled only with -tags verif.
 //
+//@ global let numchar(b) = digit(b) || b == '.' || b == 'e' || b == 'E' || b == '+' || b == '-'
 //@ global let isnum(s) = len(s) > 0 && (s[0] == '-' || digit(s[0]))
 //@ global let numfinal(q) = qis(q, "InValue.NumZero@top", "InValue.NumInt@top", "InValue.NumFrac@top", "InValue.NumExp@top")
 //
@@ -56,7 +57,11 @@ package fp
 //@   ensures [C19,C20] ghost_alloc == old(ghost_alloc)
 //@   ensures 0 <= p && p <= len(data)
 //@   ensures [C13] ok ==> isnum(data)
+//@   ensures ok ==> forall(j, 0, p, numchar(data[j]))
+//@   ensures ok ==> 1 <= p
 //@   loop 1 invariant 1 <= p && p <= len(data) && sawdigits && isnum(data)
+//@   loop 1 invariant forall(j, 0, p, numchar(data[j]))
+//@   loop 2 invariant forall(j, 0, p, numchar(data[j]))
 //@   loop 1 invariant [C19,C20] ghost_alloc == 0
 //@   loop 1 decreases len(data) - p
 //@   loop 2 invariant 1 <= p && p <= len(data) && isnum(data)
@@ -84,6 +89,9 @@ package fp
 //@   loop 2 invariant @sim Rdepth(data, i) == 0 && sawdigits
 //@   loop 2 invariant @sim qis(Rq(data, i), "InValue.NumExp@top") || (qis(Rq(data, i), "InValue.NumE@top", "InValue.NumESign@top") && i < len(data) && digit(data[i]))
 //@   requires a != nil && 0 <= a.nd && a.nd <= 800
+//@   requires [C04] forall(j, 0, len(data), data[j] != '_')
+//@   requires [C04] len(data) > 0
+//@   requires [C04] data[0] != '+'
 //@   assigns *a
 //@   ensures [C19,C20] ghost_alloc == old(ghost_alloc)
 //@   ensures 0 <= a.nd && a.nd <= 800
